@@ -309,7 +309,7 @@ Section Derived.
       + intros _. exists x', y', v. split; auto. symmetry. exact Heq.
   Qed.
 
-  (* the cell reported by the code as it is: first maximal column, first maximal row *)
+  (* the cell reported by the PINNED tree (fixed = false, before fix 4dd71e5): first maximal column, first maximal row *)
   Lemma rough_first_col_row : forall thr x y v,
     global_rough false m thr = (Some (x, y), v) -> first_col m v x /\ first_row m v y.
   Proof.
@@ -333,7 +333,7 @@ Section Derived.
       + destruct Hr as [[j Hj] _]. destruct (Hu _ _ Hj). auto.
   Qed.
 
-  (* with the proposed repair the reported cell always holds the maximum *)
+  (* the current tree (fix 4dd71e5, fixed = true): the reported cell always holds the maximum *)
   Lemma rough_fixed_cell_is_max : forall thr x y v,
     global_rough true m thr = (Some (x, y), v) -> attains m y x v.
   Proof.
@@ -341,6 +341,18 @@ Section Derived.
     destruct (global_rough_spec H W m HR HH HW _ _ _ _ Hg) as [[E _]|[x' [y' [E [_ [_ [_ [_ [_ [Ha _]]]]]]]]]].
     - discriminate.
     - inversion E; subst. auto.
+  Qed.
+
+  (* ... and WHICH maximal cell (current tree): the first column holding the maximum, and the
+     first row of that column holding it *)
+  Lemma rough_fixed_col_then_row : forall thr x y v,
+    global_rough true m thr = (Some (x, y), v) ->
+    first_col m v x /\ attains m y x v /\ forall i w, (i < y)%nat -> get m i x = Some w -> w < v.
+  Proof.
+    intros thr x y v Hg.
+    destruct (global_rough_spec H W m HR HH HW _ _ _ _ Hg) as [[E _]|[x' [y' [E [_ [_ [_ [_ [Hc Hr]]]]]]]]].
+    - discriminate.
+    - inversion E; subst. tauto.
   Qed.
 
   (* ---- the selector of F2 ---- *)
